@@ -137,5 +137,10 @@ func (s *Session) GetTopics() [][]byte {
 	return out
 }
 func (s *Session) ExtendDeadline() {
+	if s.keepaliveInterval == 0 {
+		// a keep-alive of 0 turns the keep-alive mechanism off
+		s.conn.SetDeadline(time.Time{})
+		return
+	}
 	s.conn.SetDeadline(time.Now().Add(2 * time.Duration(s.keepaliveInterval) * time.Second))
 }
